@@ -40,8 +40,10 @@ Lemma U_Atom : forall c n i, U c n i =
 Proof. reflexivity. Qed.
 
 (** the level at which a child printed in context [ctx] is parsed (7 = forced parentheses under
-    a description, parsed by the sub-word parser) *)
-Definition lvl (ctx : nat) : nat := if Nat.eqb ctx 7 then 4%nat else ctx.
+    a description, parsed by the sub-word parser; 8 = forced parentheses around a factor of a
+    word, parsed by the unary parser) *)
+Definition lvl (ctx : nat) : nat :=
+  if Nat.eqb ctx 7 then 4%nat else if Nat.eqb ctx 8 then 5%nat else ctx.
 
 (** *** What may follow *)
 
@@ -102,7 +104,7 @@ Definition body_txt (lay : layout) (ctx : nat) (e : expr) : string :=
              (append (gap_text (post_gap (nl_gap L 0))) (descr_text d))
   | Subword r _ _ =>
       match r with
-      | Sequence fs _ => txt_list (fun k f => txt (sub (sub lay 0) k) 5 f) no_sep 0 fs
+      | Sequence fs _ => txt_sub (fun k cx f => txt (sub (sub lay 0) k) cx f) 0 false fs
       | _ => txt (sub lay 0) 5 r
       end
   | Sequence cs _ => txt_list (fun k x => txt (sub lay k) 3 x) (seq_sep L) 0 cs
@@ -153,7 +155,7 @@ Definition body_loc (c : cfg) (lay : layout) (ctx : nat) (e : expr) (pb : pos) :
       match r with
       | Sequence fs _ =>
           let '(fs', p1) :=
-            loc_list (fun k f q => loc c (sub (sub lay 0) k) 5 f q) (fun _ q => q) 0 fs pb in
+            loc_sub (fun k cx f q => loc c (sub (sub lay 0) k) cx f q) 0 false fs pb in
           (Subword (Sequence fs' (pspan pb p1)) l (pspan pb p1), p1)
       | _ =>
           let '(r', p1) := loc c (sub lay 0) 5 r pb in
